@@ -109,3 +109,411 @@ def call_diff(cnarr, tmpdir, method="threshold", ploidy=2, purity=None, male_ref
         return None
     d = table_diff(read_cna(out_cli).data, read_cna(out_api).data)
     return None if d is None else f"command {' '.join(map(str, argv[2:]))}: output differs from do_call on the same file: {d}"
+
+
+# ------------------------------------------------------------------ generic machinery for the other commands
+def _both(argv, api, out_cli, out_api, compare):
+    """Run the command and the library call; -> None or a description of how they differ."""
+    try:
+        run(argv)
+        cli_err = None
+    except BaseException as exc:  # noqa: BLE001 - argparse exits with SystemExit
+        if isinstance(exc, KeyboardInterrupt):
+            raise
+        cli_err = f"{type(exc).__name__}: {exc}"
+    try:
+        api()
+        api_err = None
+    except Exception as exc:  # noqa: BLE001
+        api_err = f"{type(exc).__name__}: {exc}"
+    shown = " ".join(str(a) if not str(a).startswith("/") else os.path.basename(str(a)) for a in argv)
+    if cli_err or api_err:
+        if bool(cli_err) != bool(api_err):
+            return f"cnvkit.py {shown}: command -> {cli_err or 'ok'}, library call -> {api_err or 'ok'}"
+        return None
+    d = compare(out_cli, out_api)
+    return None if d is None else f"cnvkit.py {shown}: output differs from the library call on the same files: {d}"
+
+
+def _cmp_cna(a, b):
+    return table_diff(read_cna(a).data, read_cna(b).data)
+
+
+def _cmp_text(a, b):
+    ta, tb = open(a).read().splitlines(), open(b).read().splitlines()
+    if ta == tb:
+        return None
+    for i, (x, y) in enumerate(zip(ta, tb)):
+        if x != y:
+            return f"line {i + 1}: {x[:160]!r} vs {y[:160]!r}"
+    return f"{len(ta)} lines vs {len(tb)} lines"
+
+
+def _reseed():
+    import random
+
+    import numpy as np
+
+    random.seed(12345)
+    np.random.seed(12345)
+
+
+def segment_diff(cnarr, tmpdir, method, skip_low=False, skip_outliers=10, threshold=None, processes=1, par=None, tag="s"):
+    """`cnvkit.py segment` against `do_segmentation` on the same written .cnr."""
+    from cnvlib import segmentation
+    from skgenome import tabio
+
+    src = os.path.join(tmpdir, f"{tag}.in.cnr")
+    tabio.write(cnarr, src)
+    out_cli, out_api = os.path.join(tmpdir, f"{tag}.cli.cns"), os.path.join(tmpdir, f"{tag}.api.cns")
+    argv = ["segment", src, "-m", method, "-o", out_cli, "--drop-outliers", repr(float(skip_outliers)), "-p", processes]
+    if skip_low:
+        argv.append("--drop-low-coverage")
+    if threshold is not None:
+        argv += ["-t", repr(float(threshold))]
+    if par:
+        argv += ["--diploid-parx-genome", par]
+
+    def api():
+        segs = segmentation.do_segmentation(read_cna(src), method, par, threshold, skip_low=skip_low,
+                                            skip_outliers=float(skip_outliers), processes=1)
+        tabio.write(segs, out_api)
+
+    return _both(argv, api, out_cli, out_api, _cmp_cna)
+
+
+STAT_FLAGS = {"mean": "--mean", "median": "--median", "mode": "--mode", "p_ttest": "--t-test", "stdev": "--stdev", "sem": "--sem",
+              "mad": "--mad", "mse": "--mse", "iqr": "--iqr", "bivar": "--bivar", "ci": "--ci", "pi": "--pi"}
+
+
+def segmetrics_diff(cnarr, segarr, tmpdir, loc, spread, interval, alpha, boots, smoothed, skip_low, tag="m"):
+    from cnvlib import segmetrics
+    from skgenome import tabio
+
+    cnr, cns = os.path.join(tmpdir, f"{tag}.in.cnr"), os.path.join(tmpdir, f"{tag}.in.cns")
+    tabio.write(cnarr, cnr)
+    tabio.write(segarr, cns)
+    out_cli, out_api = os.path.join(tmpdir, f"{tag}.cli.cns"), os.path.join(tmpdir, f"{tag}.api.cns")
+    argv = ["segmetrics", cnr, "-s", cns, "-o", out_cli, "--alpha", repr(float(alpha)), "--bootstrap", boots]
+    argv += [STAT_FLAGS[s] for s in list(loc) + list(spread) + list(interval)]
+    if smoothed:
+        argv.append("--smooth-bootstrap")
+    if skip_low:
+        argv.append("--drop-low-coverage")
+    if not (loc or spread or interval):
+        return None  # the command documents that it does nothing then
+
+    def api():
+        _reseed()
+        res = segmetrics.do_segmetrics(read_cna(cnr), read_cna(cns), list(loc), list(spread), list(interval), float(alpha), boots,
+                                       smoothed, skip_low=skip_low)
+        tabio.write(res, out_api)
+
+    _reseed()
+    return _both(argv, api, out_cli, out_api, _cmp_cna)
+
+
+def bintest_diff(cnarr, segarr, tmpdir, alpha, target_only, tag="b"):
+    from cnvlib import bintest
+    from skgenome import tabio
+
+    cnr = os.path.join(tmpdir, f"{tag}.in.cnr")
+    tabio.write(cnarr, cnr)
+    argv = ["bintest", cnr, "-a", repr(float(alpha))]
+    cns = None
+    if segarr is not None:
+        cns = os.path.join(tmpdir, f"{tag}.in.cns")
+        tabio.write(segarr, cns)
+        argv += ["-s", cns]
+    if target_only:
+        argv.append("-t")
+    out_cli, out_api = os.path.join(tmpdir, f"{tag}.cli.cnr"), os.path.join(tmpdir, f"{tag}.api.cnr")
+    argv += ["-o", out_cli]
+
+    def api():
+        res = bintest.do_bintest(read_cna(cnr), read_cna(cns) if cns else None, float(alpha), target_only)
+        tabio.write(res, out_api)
+
+    return _both(argv, api, out_cli, out_api, _cmp_cna)
+
+
+def genemetrics_diff(cnarr, segarr, tmpdir, threshold, min_probes, skip_low, male_ref, female, par=None, tag="g"):
+    from cnvlib import cmdutil, reports
+    from skgenome import tabio
+
+    cnr = os.path.join(tmpdir, f"{tag}.in.cnr")
+    tabio.write(cnarr, cnr)
+    out_cli, out_api = os.path.join(tmpdir, f"{tag}.cli.tsv"), os.path.join(tmpdir, f"{tag}.api.tsv")
+    argv = ["genemetrics", cnr, "-t", repr(float(threshold)), "-m", min_probes, "-o", out_cli]
+    cns = None
+    if segarr is not None:
+        cns = os.path.join(tmpdir, f"{tag}.in.cns")
+        tabio.write(segarr, cns)
+        argv += ["-s", cns]
+    if skip_low:
+        argv.append("--drop-low-coverage")
+    if male_ref:
+        argv.append("-y")
+    if female is not None:
+        argv += ["-x", _sex_word(female)]
+    if par:
+        argv += ["--diploid-parx-genome", par]
+
+    def api():
+        arr = read_cna(cnr)
+        is_female = cmdutil.verify_sample_sex(arr, None if female is None else _sex_word(female), male_ref, par)
+        tab = reports.do_genemetrics(arr, read_cna(cns) if cns else None, float(threshold), min_probes, skip_low, male_ref, is_female, par)
+        cmdutil.write_dataframe(out_api, tab)
+
+    return _both(argv, api, out_cli, out_api, _cmp_text)
+
+
+def breaks_diff(cnarr, segarr, tmpdir, min_probes, tag="k"):
+    from cnvlib import cmdutil, reports
+    from skgenome import tabio
+
+    cnr, cns = os.path.join(tmpdir, f"{tag}.in.cnr"), os.path.join(tmpdir, f"{tag}.in.cns")
+    tabio.write(cnarr, cnr)
+    tabio.write(segarr, cns)
+    out_cli, out_api = os.path.join(tmpdir, f"{tag}.cli.tsv"), os.path.join(tmpdir, f"{tag}.api.tsv")
+    argv = ["breaks", cnr, cns, "-m", min_probes, "-o", out_cli]
+
+    def api():
+        cmdutil.write_dataframe(out_api, reports.do_breaks(read_cna(cnr), read_cna(cns), min_probes))
+
+    return _both(argv, api, out_cli, out_api, _cmp_text)
+
+
+def sex_diff(cnarrs, tmpdir, male_ref, par=None, tag="x"):
+    from cnvlib import cmdutil, commands
+    from skgenome import tabio
+
+    paths = []
+    for i, a in enumerate(cnarrs):
+        p = os.path.join(tmpdir, f"{tag}{i}.cnr")
+        tabio.write(a, p)
+        paths.append(p)
+    out_cli, out_api = os.path.join(tmpdir, f"{tag}.cli.tsv"), os.path.join(tmpdir, f"{tag}.api.tsv")
+    argv = ["sex"] + paths + ["-o", out_cli]
+    if male_ref:
+        argv.append("-y")
+    if par:
+        argv += ["--diploid-parx-genome", par]
+
+    def api():
+        cmdutil.write_dataframe(out_api, commands.do_sex([read_cna(p) for p in paths], male_ref, par), header=True)
+
+    return _both(argv, api, out_cli, out_api, _cmp_text)
+
+
+def export_bed_diff(segarr, tmpdir, ploidy, male_ref, female, par, label_mode, show, tag="e"):
+    """label_mode: 'sample' (file's sample id), 'genes' (--label-genes) or a literal label passed with -i."""
+    import pandas as pd
+    from cnvlib import cmdutil, export
+    from skgenome import tabio
+
+    cns = os.path.join(tmpdir, f"{tag}.in.cns")
+    tabio.write(segarr, cns)
+    out_cli, out_api = os.path.join(tmpdir, f"{tag}.cli.bed"), os.path.join(tmpdir, f"{tag}.api.bed")
+    argv = ["export", "bed", cns, "--ploidy", ploidy, "--show", show, "-o", out_cli]
+    if male_ref:
+        argv.append("-y")
+    if female is not None:
+        argv += ["-x", _sex_word(female)]
+    if par:
+        argv += ["--diploid-parx-genome", par]
+    if label_mode == "genes":
+        argv.append("--label-genes")
+    elif label_mode != "sample":
+        argv += ["-i", label_mode]
+
+    def api():
+        arr = read_cna(cns)
+        is_female = cmdutil.verify_sample_sex(arr, None if female is None else _sex_word(female), male_ref, par)
+        label = None if label_mode == "genes" else arr.sample_id if label_mode == "sample" else label_mode
+        tbl = export.export_bed(arr, ploidy, male_ref, par, is_female, label, show)
+        cmdutil.write_dataframe(out_api, pd.concat([tbl]), header=False)
+
+    return _both(argv, api, out_cli, out_api, _cmp_text)
+
+
+def export_vcf_diff(segarr, tmpdir, ploidy, male_ref, female, par, sample_id=None, tag="v"):
+    from cnvlib import cmdutil, export
+    from skgenome import tabio
+
+    cns = os.path.join(tmpdir, f"{tag}.in.cns")
+    tabio.write(segarr, cns)
+    out_cli, out_api = os.path.join(tmpdir, f"{tag}.cli.vcf"), os.path.join(tmpdir, f"{tag}.api.vcf")
+    argv = ["export", "vcf", cns, "--ploidy", ploidy, "-o", out_cli]
+    if male_ref:
+        argv.append("-y")
+    if female is not None:
+        argv += ["-x", _sex_word(female)]
+    if par:
+        argv += ["--diploid-parx-genome", par]
+    if sample_id:
+        argv += ["-i", sample_id]
+
+    def api():
+        arr = read_cna(cns)
+        is_female = cmdutil.verify_sample_sex(arr, None if female is None else _sex_word(female), male_ref, par)
+        header, body = export.export_vcf(arr, ploidy, male_ref, par, is_female, sample_id, None)
+        cmdutil.write_text(out_api, header, body)
+
+    def cmp(a, b):
+        # the header carries the date and the command line: compare from the column line on
+        def body(p):
+            lines = open(p).read().splitlines()
+            k = next((i for i, ln in enumerate(lines) if ln.startswith("#CHROM")), 0)
+            return [ln for ln in lines[:k] if not ln.startswith(("##fileDate", "##source", "##cmdline"))] + lines[k:]
+
+        ta, tb = body(a), body(b)
+        if ta == tb:
+            return None
+        for i, (x, y) in enumerate(zip(ta, tb)):
+            if x != y:
+                return f"line {i + 1}: {x[:160]!r} vs {y[:160]!r}"
+        return f"{len(ta)} lines vs {len(tb)} lines"
+
+    return _both(argv, api, out_cli, out_api, cmp)
+
+
+def export_seg_diff(paths, tmpdir, enumerate_chroms, tag="q"):
+    from cnvlib import cmdutil, export
+
+    out_cli, out_api = os.path.join(tmpdir, f"{tag}.cli.seg"), os.path.join(tmpdir, f"{tag}.api.seg")
+    argv = ["export", "seg"] + list(paths) + ["-o", out_cli]
+    if enumerate_chroms:
+        argv.append("--enumerate-chroms")
+
+    def api():
+        cmdutil.write_dataframe(out_api, export.export_seg(list(paths), chrom_ids=enumerate_chroms))
+
+    return _both(argv, api, out_cli, out_api, _cmp_text)
+
+
+def _cmp_bed(a, b):
+    return _cmp_text(a, b)
+
+
+def target_diff(bait_path, tmpdir, short, split, avg, annotate=None, tag="t"):
+    from cnvlib import target
+    from skgenome import tabio
+
+    out_cli, out_api = os.path.join(tmpdir, f"{tag}.cli.bed"), os.path.join(tmpdir, f"{tag}.api.bed")
+    argv = ["target", bait_path, "-a", int(avg), "-o", out_cli]
+    if short:
+        argv.append("--short-names")
+    if split:
+        argv.append("--split")
+    if annotate:
+        argv += ["--annotate", annotate]
+
+    def api():
+        tabio.write(target.do_target(tabio.read_auto(bait_path), annotate, short, split, int(avg)), out_api, "bed4")
+
+    return _both(argv, api, out_cli, out_api, _cmp_bed)
+
+
+def antitarget_diff(target_path, access_path, tmpdir, avg, min_size, tag="a"):
+    from cnvlib import antitarget
+    from skgenome import tabio
+
+    out_cli, out_api = os.path.join(tmpdir, f"{tag}.cli.bed"), os.path.join(tmpdir, f"{tag}.api.bed")
+    argv = ["antitarget", target_path, "-a", int(avg), "-o", out_cli]
+    if access_path:
+        argv += ["-g", access_path]
+    if min_size is not None:
+        argv += ["-m", int(min_size)]
+
+    def api():
+        acc = tabio.read_auto(access_path) if access_path else None
+        tabio.write(antitarget.do_antitarget(tabio.read_auto(target_path), acc, int(avg), None if min_size is None else int(min_size)),
+                    out_api, "bed4")
+
+    return _both(argv, api, out_cli, out_api, _cmp_bed)
+
+
+def access_diff(fasta, excludes, tmpdir, min_gap, tag="c"):
+    from cnvlib import access
+    from skgenome import tabio
+
+    out_cli, out_api = os.path.join(tmpdir, f"{tag}.cli.bed"), os.path.join(tmpdir, f"{tag}.api.bed")
+    argv = ["access", fasta, "-s", int(min_gap), "-o", out_cli]
+    for x in excludes:
+        argv += ["-x", x]
+
+    def api():
+        tabio.write(access.do_access(fasta, list(excludes), int(min_gap)), out_api, "bed3")
+
+    return _both(argv, api, out_cli, out_api, _cmp_bed)
+
+
+def fix_diff(tpath, apath, rpath, tmpdir, do_gc, do_edge, do_rmask, par=None, tag="f"):
+    from cnvlib import fix
+    from skgenome import tabio
+
+    out_cli, out_api = os.path.join(tmpdir, f"{tag}.cli.cnr"), os.path.join(tmpdir, f"{tag}.api.cnr")
+    argv = ["fix", tpath, apath, rpath, "-o", out_cli]
+    if not do_gc:
+        argv.append("--no-gc")
+    if not do_edge:
+        argv.append("--no-edge")
+    if not do_rmask:
+        argv.append("--no-rmask")
+    if par:
+        argv += ["--diploid-parx-genome", par]
+
+    def api():
+        res = fix.do_fix(read_cna(tpath), read_cna(apath), read_cna(rpath), par, do_gc, do_edge, do_rmask)
+        tabio.write(res, out_api)
+
+    return _both(argv, api, out_cli, out_api, _cmp_cna)
+
+
+def reference_diff(tfiles, afiles, fasta, tmpdir, male_ref, female, do_gc, do_edge, do_rmask, par=None, tag="r"):
+    """Pooled reference: female = None (infer), True or False (stated for every sample)."""
+    from cnvlib import reference
+    from skgenome import tabio
+
+    out_cli, out_api = os.path.join(tmpdir, f"{tag}.cli.cnn"), os.path.join(tmpdir, f"{tag}.api.cnn")
+    argv = ["reference"] + list(tfiles) + list(afiles or []) + ["-o", out_cli]
+    if fasta:
+        argv += ["-f", fasta]
+    if male_ref:
+        argv.append("-y")
+    if female is not None:
+        argv += ["-x", _sex_word(female)]
+    if not do_gc:
+        argv.append("--no-gc")
+    if not do_edge:
+        argv.append("--no-edge")
+    if not do_rmask:
+        argv.append("--no-rmask")
+    if par:
+        argv += ["--diploid-parx-genome", par]
+
+    def api():
+        # the command sorts its file arguments into target and antitarget files by the word "antitarget" in the name
+        names = list(tfiles) + list(afiles or [])
+        t = [f for f in names if "antitarget" not in f]
+        a = [f for f in names if "antitarget" in f]
+        ref = reference.do_reference(t, a, fasta, male_ref, par, female, do_gc, do_edge, do_rmask)
+        tabio.write(ref, out_api)
+
+    return _both(argv, api, out_cli, out_api, _cmp_cna)
+
+
+def coverage_diff(bam, bed, tmpdir, by_count, min_mapq, processes, tag="o"):
+    from cnvlib import coverage
+    from skgenome import tabio
+
+    out_cli, out_api = os.path.join(tmpdir, f"{tag}.cli.cnn"), os.path.join(tmpdir, f"{tag}.api.cnn")
+    argv = ["coverage", bam, bed, "-q", min_mapq, "-p", processes, "-o", out_cli]
+    if by_count:
+        argv.append("-c")
+
+    def api():
+        tabio.write(coverage.do_coverage(bed, bam, by_count, min_mapq, 1, None), out_api)
+
+    return _both(argv, api, out_cli, out_api, _cmp_cna)
